@@ -18,11 +18,48 @@ RULE = (
     "the real code; observed: class and raw data of every element, written output. Judged by Spec.C13.holds (elements "
     "= readSectionFile: the declared sections exactly once each, in declared order, each from where the previous one "
     "stopped, then one default section per remaining line; raw data concatenate to x; output == x) and compared with "
-    "the model. non-trivial = at least one declared section and non-empty content; distinct by full case."
+    "the model. non-trivial = at least one declared section and non-empty content; distinct by full case. "
+    "Repeated writes: in about a third of the random cases (and a third of the enumerated ones) the one file object "
+    "read from x is written 2-3 times in a row, each time to a fresh destination of its own (buffers, or paths of one "
+    "directory); once all writes are done one of the destinations (chosen by the case) is looked at and its content is "
+    "the observed output, which must be x exactly as the model computes it for a single write."
 )
 ASSUMPTIONS = ["sections are the harness's raw-storing sections (fixed line count / pattern-terminated); a section reading at end of input stores []"]
 TRUSTED = ["Python re.search for the AST subset"]
 EXHAUSTIVE = {"quick": True, "thorough": True}
+
+
+class DestinationNotCreated(Exception):
+    pass
+
+
+def write_each(f, io, binary, extra, n):
+    """n writes in a row of the one file object f, each to a fresh destination of its own (buffers in memory, or
+    paths of one fresh directory); every destination is looked at only after ALL the writes are done"""
+    if not io:
+        from io import BytesIO
+
+        bufs = [BytesIO() if binary else StringIO() for _ in range(n)]
+        for b in bufs:
+            f.write(b, *extra)
+        return [b.getvalue() for b in bufs]
+    import os, shutil, tempfile
+
+    d = tempfile.mkdtemp(prefix="cfi-io-")
+    try:
+        paths = [os.path.join(d, f"out{i}.dat") for i in range(n)]
+        for p in paths:
+            f.write(p, *extra)
+        out = []
+        for i, p in enumerate(paths):
+            if not os.path.exists(p):
+                raise DestinationNotCreated(f"write number {i + 1} of {n} (to a path of its own) returned, but nothing exists at that path")
+            with open(p, "rb") as fh:
+                raw = fh.read()
+            out.append(raw if binary else raw.decode(io["enc"]))
+        return out
+    finally:
+        shutil.rmtree(d, ignore_errors=True)
 
 
 def run_impl(case):
@@ -37,7 +74,13 @@ def run_impl(case):
         f = fsup.read_text(SF, x, case.get("io"))
         cap = len(x) + len(case["secs"]) + 5
         elems = [fsup.enc_selem(e, classes) for e in fsup.capped(f.data, cap)]
-        return {"elems": elems, "written": codec.enc_str(fsup.as_text(fsup.write_text(f, case.get("io"), binary, (f.data,) if case.get("query_in_write") else ())))}
+        extra = (f.data,) if case.get("query_in_write") else ()
+        w = case.get("writes")
+        if w:
+            written = write_each(f, case.get("io"), binary, extra, w["n"])[w["observe"]]
+        else:
+            written = fsup.write_text(f, case.get("io"), binary, extra)
+        return {"elems": elems, "written": codec.enc_str(fsup.as_text(written))}
     except Exception as e:
         return codec.enc_exc(e)
 
@@ -58,12 +101,21 @@ def judge(case, obs, resp):
     if not resp["model_holds"]:
         return {"status": "error", "why": f"the MODEL violates Spec.C13.holds: {c12.show(resp.get('model'), False)}"}
     if "exc" in obs:
-        return {"status": "oracle", "why": f"SectionFile read/write raised {obs['exc']}: {obs.get('msg')}"}
+        return {"status": "oracle", "why": f"SectionFile read/write raised {obs['exc']}: {obs.get('msg')}{show_writes(case)}"}
     if not resp["holds"]:
-        return {"status": "oracle", "why": f"x={codec.dec_str(case['x'])!r}: got {c12.show(obs, False)}; required {c12.show(resp.get('model'), False)}"}
+        return {"status": "oracle", "why": f"x={codec.dec_str(case['x'])!r}: got {c12.show(obs, False)}; required {c12.show(resp.get('model'), False)}{show_writes(case)}"}
     if not resp["agree"]:
         return {"status": "corr", "why": "model and implementation disagree"}
     return {"status": "ok", "why": ""}
+
+
+def show_writes(case):
+    w = case.get("writes")
+    if not w:
+        return ""
+    where = "paths of one directory" if case.get("io") else "buffers"
+    return (f" [the one file object read from x was written {w['n']} times in a row, each time to a fresh destination of "
+            f"its own ({where}); 'written' is what destination number {w['observe'] + 1} holds once all writes are done]")
 
 
 def nontrivial(case):
@@ -74,6 +126,8 @@ def features(case, obs):
     x = codec.dec_str(case["x"])
     n = len(x.splitlines())
     f = [f"nsecs={len(case['secs'])}", f"nlines={min(n, 12)}"]
+    w = case.get("writes")
+    f.append("writes=1" if not w else f"writes={w['n']},observed={w['observe'] + 1}")
     f.append("empty_content" if not x else ("final_newline" if x.endswith("\n") else "no_final_newline"))
     if isinstance(obs, dict) and "elems" in obs:
         declared = [e for e in obs["elems"] if "cls" in e]
@@ -143,7 +197,14 @@ def random_case(rng):
             case["io"] = io
     case["x"] = codec.enc_str(x)
     case["query_in_write"] = rng.random() < 0.25
+    if rng.random() < 0.33:
+        case["writes"] = rand_writes(rng)
     return case
+
+
+def rand_writes(rng):
+    n = rng.choice([2, 2, 3])
+    return {"n": n, "observe": rng.randrange(n)}
 
 
 def exhaustive_cases():
@@ -159,10 +220,15 @@ def exhaustive_cases():
             contents.append(x)
             if x:
                 contents.append(x[:-1])
+    k = 0
     for n in range(0, 4):
         for secs in itertools.product(pool, repeat=n):
             for x in contents if n <= 2 else contents[::5]:
-                yield {"secs": list(secs), "x": codec.enc_str(x)}
+                case = {"secs": list(secs), "x": codec.enc_str(x)}
+                k += 1
+                if k % 3 == 0:  # every third one: two writes in a row, the first / the second destination observed
+                    case["writes"] = {"n": 2, "observe": (k // 3) % 2}
+                yield case
 
 
 def corpus_cases():
@@ -200,6 +266,11 @@ def cases_of(chunk):
 
 
 def shrinks(case):
+    w = case.get("writes")
+    if w:
+        yield {k: v for k, v in case.items() if k != "writes"}
+        if w["n"] > 2:
+            yield {**case, "writes": {"n": 2, "observe": min(w["observe"], 1)}}
     lines = codec.dec_str(case["x"]).splitlines(True)
     for i in range(len(lines)):
         yield {**case, "x": codec.enc_str("".join(lines[:i] + lines[i + 1 :]))}
